@@ -1,9 +1,14 @@
 #!/bin/bash
 # Developer tool: after a behavioural change of /repo re-record every ledger, regenerate the
-# ledger-derived entries of KNOWN_FINDINGS.txt and run all quick checks.
+# ledger-derived entries of KNOWN_FINDINGS.txt and run all checks.
+#   lib/rerecord.sh            quick tier (known/Cxx.ledger)
+#   lib/rerecord.sh thorough   thorough tier (known/Cxx.thorough.ledger)
 cd "$(dirname "$0")/.."
+TIER=${1:-quick}
 for P in C01 C02 C03 C04 C05 C07 C08 C09 C10 C11 C12 C14 C15 C17 C19 C20; do
-  ./check $P --record 2>&1 | grep -E "^recorded|Traceback|Error" | head -3
+  s=$(date +%s)
+  ./check $P --tier $TIER --record 2>&1 | grep -E "^recorded|Traceback|Error" | head -3
+  echo "  ($P $TIER record: $(( $(date +%s) - s )) s)"
 done
 python3 lib/regen_known.py
-lib/runall.sh
+lib/runall.sh $TIER
